@@ -467,3 +467,9 @@ func zzHoleBytes(path, positions, name string) string {
 	}
 	return string(b)
 }
+
+// Package-level verdict lists are shared by every evaluation and must never change.
+func zzGlobalsMark() {}
+func zzGlobalsUnchanged() bool {
+	return len(emptyList) == 1 && emptyList[0] == emptyEntity && len(fullList) == 1 && fullList[0] == true
+}
